@@ -66,7 +66,8 @@ def one_edit(rng):
 
 class C03(Property):
     id = "C03"
-    lean_module = "RosuModel.Props.C03Decoded"   # imports Props/C03Edit.lean → Props/C03All.lean (Props/C03Frame.lean → Props/C03.lean, Props/C03File.lean); all in namespace Rosu.C03
+    lean_module = "RosuModel.Props.C03Full"   # imports Props/C03Edit.lean → Props/C03All.lean (Props/C03Frame.lean → Props/C03.lean, Props/C03File.lean); all in namespace Rosu.C03
+    theorem_modules = ['RosuModel.Props.C03Decoded', 'RosuModel.Props.C03DecodedIeee']   # files whose top-level theorems are all audited
     namespace = "Rosu.C03"
     design_ref = "5.3"
     required_theorems = ["title_line_sets_title", "artist_line_sets_artist", "edit_survives_metadata", "edit_frame_metadata",
